@@ -6,12 +6,40 @@ from __future__ import absolute_import, division
 import json
 import re
 from datetime import date, datetime
+from decimal import Decimal
 
 # This is a hack to determine the type of object that re.compile returns, since the type
 #    "re.RegexObject" mentioned in the official Python documentation doesn't actually exist.
 # Could alternatively use "re._pattern_type" (undocumented and marked private)
 #    or the following in 3.6: "from typing import Pattern"
 REGEX_TYPE = type(re.compile(""))
+
+
+def formatGcodeNumber(value):
+    """
+    Format a number for use as a Gcode parameter value.
+
+    Gcode numbers may not use exponent notation (firmware would read "E2.8e-05" as 2.8), so very
+    small or very large values are written out in plain decimal notation instead.
+
+    Parameters
+    ----------
+    value : number
+        The value to format.
+
+    Returns
+    -------
+    string
+        str(value), or the equivalent plain decimal representation if that uses an exponent.
+    """
+    text = str(value)
+    if ("e" in text) or ("E" in text):
+        try:
+            text = format(Decimal(text), "f")
+        except ArithmeticError:
+            pass
+
+    return text
 
 
 class JsonEncoder(json.JSONEncoder):
